@@ -87,6 +87,7 @@ class Runtime(object):
         self.cfg = cfg
         self.beh = dict(cfg.get('beh') or {})
         self.flavour = dict(cfg.get('resp_flavour') or {})    # fid -> 'response' | 'base' | 'http'
+        self.exc_flavour = dict(cfg.get('exc_flavour') or {})  # fid -> 'plain' | 'http' (an HTTPException that is raised)
         self.by_id = {}
         self.keep = []
         self.resources = {}
@@ -197,7 +198,11 @@ class Runtime(object):
                 else:
                     o = Response('resp:%s:%s' % (fid, tok), mimetype='text/plain')
             elif kind == 'exc':
-                o = SpyError(fid, tok)
+                if self.exc_flavour.get(fid) == 'http':
+                    from clastic.errors import Conflict
+                    o = Conflict(detail='exc:%s:%s' % (fid, tok))
+                else:
+                    o = SpyError(fid, tok)
             else:
                 o = Marker(['ctx', fid])
             tr['made'][id(o)] = [kind, fid]
@@ -324,7 +329,14 @@ def make_middleware(rt, mw, type_registry):
     tname = mw['type']
     cls = type_registry.get(tname)
     if cls is None:
-        cls = type(str(tname), (Middleware,), {'unique': bool(mw.get('unique', True)),
+        base = Middleware
+        if mw.get('base'):
+            # a subclass of another middleware type of the configuration (a *different* type for the uniqueness rule)
+            base = type_registry.get(mw['base'])
+            if base is None:
+                base = type_registry[mw['base']] = type(str(mw['base']), (Middleware,), {
+                    'unique': bool(mw.get('base_unique', True)), 'reorderable': True, '__repr__': lambda self: '<mw %s>' % self.mid})
+        cls = type(str(tname), (base,), {'unique': bool(mw.get('unique', True)),
                                                'reorderable': bool(mw.get('reorderable', True)),
                                                '__repr__': lambda self: '<mw %s>' % self.mid})
         type_registry[tname] = cls
@@ -428,7 +440,8 @@ def build(cfg, error_handler_factory=None, slash_mode=None):
         kw = {}
         if route.get('methods'):
             kw['methods'] = route['methods']
-        r = Route(pattern_of(route), ep, rn, middlewares=route_mws, resources=route_res, **kw)
+        via_factory = bool(route.get('render_via_factory')) and rn is not None
+        r = Route(pattern_of(route), ep, 'template-name' if via_factory else rn, middlewares=route_mws, resources=route_res, **kw)
         out.route = r
         inner = None
         for k in range(len(cfg['levels']) - 1, -1, -1):
@@ -437,6 +450,9 @@ def build(cfg, error_handler_factory=None, slash_mode=None):
             akw = {}
             if slash_mode:
                 akw['slash_mode'] = slash_mode
+            if route.get('render_via_factory') and rn is not None:
+                # every level offers the same factory: its product is the spy render function
+                akw['render_factory'] = (lambda render_arg, _rn=rn: _rn)
             if inner is None:
                 routes = sibling_routes + [make_decoy(d) for d in (route.get('decoys') or [])] + [r]
             else:
